@@ -235,6 +235,12 @@ func runC16(t *T) {
 				faultsLeft--
 				if faultStore != nil {
 					plan = &faultPlan{t: t, at: c.Draw(3), kind: []string{"Get", "", "ReadDirNames"}[c.Weighted(3, 1, 1)], armed: true}
+					if plan.kind == "Get" && c.Chance(1, 3) {
+						// the store says a child it has just listed does not exist: still a failure of the page, not an
+						// entry to leave out silently
+						plan.getErr = hackpadfs.ErrNotExist
+						plan.at = 1 + c.Draw(3) // (not the look-up of the directory itself)
+					}
 					faultStore.plan = plan
 				} else {
 					faultCore.armNext(c16LastCoreKind)
@@ -262,7 +268,7 @@ func runC16(t *T) {
 			}
 			if faulted {
 				sig = fam + ":page-after-store-fault"
-				if err != nil && err != io.EOF && (errors.Is(err, errInjected) || errors.Is(err, errInjectedFS)) {
+				if err != nil && err != io.EOF && (errors.Is(err, errInjected) || errors.Is(err, errInjectedFS) || (plan != nil && plan.getErr != nil && errors.Is(err, plan.getErr))) {
 					// the page failed with the store's error (a handle may go on failing with it: records cache
 					// a failed load): whatever it delivered counts, the listing goes on
 					failedLast = true
